@@ -158,6 +158,21 @@ vf::Outcome run_case(const vf::Case& c, const vf::RunCtx& ctx) {
       { Eigen::Map<GroupT> m(buf.data() + 1); Eigen::Map<const GroupT> my(buf2.data() + 1); m = m * my; k.require("alias:view=view*view", bits_eq(m.coeffs(), XY.coeffs()), "view = view*other differs from X*Y"); }
       k.require("alias:guards", buf[0] == fill && buf[R + 1] == fill && buf2[0] == fill && buf2[R + 1] == fill, "a view operation wrote outside its buffer");
       { TangentT U = T; U = U + U; TangentT V = T; V += V; k.require("alias:t+=t", bits_eq(U.coeffs(), V.coeffs()), "t += t differs from t + t"); }
+      // in-place tangent updates whose right-hand side is an Eigen expression reading the same tangent
+      {
+        const Jac A = X.adj();
+        const typename TangentT::DataType prod = A * T.coeffs();
+        const TangentT plus_ref(typename TangentT::DataType(T.coeffs() + prod)), minus_ref(typename TangentT::DataType(T.coeffs() - prod)), asg_ref(prod);
+        { TangentT V = T; V += A * V.coeffs(); k.require("alias:t+=A*t", bits_eq(V.coeffs(), plus_ref.coeffs()), "t += A*t.coeffs() differs from the unaliased t + A*t"); }
+        { TangentT V = T; V -= A * V.coeffs(); k.require("alias:t-=A*t", bits_eq(V.coeffs(), minus_ref.coeffs()), "t -= A*t.coeffs() differs from the unaliased t - A*t"); }
+        { TangentT V = T; V = A * V.coeffs(); k.require("alias:t=A*t", bits_eq(V.coeffs(), asg_ref.coeffs()), "t = A*t.coeffs() differs from the unaliased product"); }
+        std::vector<Scalar> tb(D + 2, fill);
+        auto reset = [&]() { for (int i = 0; i < D; ++i) tb[i + 1] = T.coeffs()(i); };
+        reset(); { Eigen::Map<TangentT> m(tb.data() + 1); m += A * m.coeffs(); k.require("alias:view+=A*view", bits_eq(m.coeffs(), plus_ref.coeffs()), "tangent view += A*view differs from the unaliased computation"); }
+        reset(); { Eigen::Map<TangentT> m(tb.data() + 1); m -= A * m.coeffs(); k.require("alias:view-=A*view", bits_eq(m.coeffs(), minus_ref.coeffs()), "tangent view -= A*view differs from the unaliased computation"); }
+        reset(); { Eigen::Map<TangentT> m(tb.data() + 1); m = A * m.coeffs(); k.require("alias:view=A*view", bits_eq(m.coeffs(), asg_ref.coeffs()), "tangent view = A*view differs from the unaliased product"); }
+        k.require("alias:tangent guards", tb[0] == fill && tb[D + 1] == fill, "a tangent view operation wrote outside its buffer");
+      }
     }
     bool xid = bits_eq(X.coeffs(), GroupT::Identity().coeffs()), tz = T.coeffs().isZero(0);
     k.o.nontrivial = !xid && !tz;
